@@ -61,9 +61,11 @@
                                 scope (the case block: a declaration in a clause is visible in the following
                                 clauses) which ends with the switch; a declaration made directly in a branch of an
                                 `if` does not outlive the branch; redeclaration shadows.  Case values are typed in the
-                                scope before the switch.  (The compiler deviates: see finding F32 — declarations in
-                                `case` clauses and in unbraced `if` branches stay visible until the end of the
-                                ENCLOSING block, so a variable whose declaration was never executed can be read.)
+                                scope before the switch.  (The compiler used to deviate — findings F32 and F40: declarations in
+                                unbraced `if` branches and in `case` clauses stayed visible until the end of the
+                                ENCLOSING block, so a variable whose declaration was never executed could be read;
+                                repaired by a011e08 and 2a702d4, and proved for the model:
+                                Props.C05.declared_in_block_branch_or_clause_not_visible_after.)
    D16 result of a binding      the result types are those of all `return` statements (reachable or not; `return;`
                                 is void) and of the expression statements in tail position.  They must have ONE
                                 common type (D4: no upcast between them; literal types may mix with the type they
@@ -673,6 +675,32 @@ def producesValue : Stmt → Bool
   | .lexical .. | .break_ _ | .return_ _ => false
   | _ => true
 
+/-- `if (c) a else b` from the verdicts on its parts: the condition is bool (checked after the branches, as the
+    compiler reports), a declaration made directly in a branch does not outlive it (D15) -/
+def ifElseOut (sc : Scope) (ct : Except Err Ty) (ra rb : Except Err Out) : Except Err Out :=
+  match ct with
+  | .error x => .error x
+  | .ok ct =>
+    match ra with
+    | .error x => .error x
+    | .ok oa =>
+      match rb with
+      | .error x => .error x
+      | .ok ob =>
+        if ct ≠ .bool then .error .conditionNotBool
+        else .ok { scope := sc, returns := oa.returns ++ ob.returns, tails := oa.tails ++ ob.tails }
+
+/-- `if (c) a` -/
+def ifOut (sc : Scope) (last prev : Bool) (ct : Except Err Ty) (ra : Except Err Out) : Except Err Out :=
+  match ct with
+  | .error x => .error x
+  | .ok ct =>
+    match ra with
+    | .error x => .error x
+    | .ok oa =>
+      if ct ≠ .bool then .error .conditionNotBool
+      else .ok { scope := sc, returns := oa.returns, tails := oa.tails ++ (if last then [emptyTail prev] else []) }
+
 mutual
 
 /-- `inSwitch`: `break` allowed; `last`: the statement is in tail position of the program; `prev`: see `emptyTail` -/
@@ -690,22 +718,9 @@ def checkStmt (w : World) (inSwitch : Bool) (last prev : Bool) (sc : Scope) : St
      | .error x => .error x
      | .ok sc' => .ok { scope := sc', tails := if last then [emptyTail prev] else [] })
   | .if_ c a b =>
-    (match typeOf w sc c with
-     | .error x => .error x
-     | .ok ct =>
-       match checkStmt w inSwitch last prev sc a with
-       | .error x => .error x
-       | .ok oa =>
-         match b with
-         | some s =>
-           (match checkStmt w inSwitch last prev sc s with
-            | .error x => .error x
-            | .ok ob =>
-              if ct ≠ .bool then .error .conditionNotBool
-              else .ok { scope := sc, returns := oa.returns ++ ob.returns, tails := oa.tails ++ ob.tails })
-         | none =>
-           if ct ≠ .bool then .error .conditionNotBool
-           else .ok { scope := sc, returns := oa.returns, tails := oa.tails ++ (if last then [emptyTail prev] else []) })
+    (match b with
+     | some s => ifElseOut sc (typeOf w sc c) (checkStmt w inSwitch last prev sc a) (checkStmt w inSwitch last prev sc s)
+     | none => ifOut sc last prev (typeOf w sc c) (checkStmt w inSwitch last prev sc a))
   | .switch v clauses =>
     if (clauses.filter (·.1.isNone)).length > 1 then .error .multipleDefault
     else
